@@ -419,7 +419,7 @@ func worker(kind string, data json.RawMessage) any {
 func pinnedCalls() []callSpec {
 	w := func(entry string, args ...V) callSpec { return callSpec{Kind: "wrap", Entry: entry, Args: args} }
 	bs := func(s string) V { return vBytes([]byte(s)) }
-	return []callSpec{
+	return append(gridCalls(w), []callSpec{
 		w("bytes.contains_rune", bs("héllo"), vStr("é")),
 		w("byte_slice.contains_rune", bs("héllo"), vStr("é")),
 		w("bytes.index_rune", bs("héllo"), vStr("é")),
@@ -458,7 +458,40 @@ func pinnedCalls() []callSpec {
 		{Kind: "codec-mal", Codec: "base64", Sub: "bad-char", Args: []V{bs("YW_j")}},
 		{Kind: "codec-mal", Codec: "urlquery", Sub: "bad-escape", Args: []V{bs("%zz")}},
 		{Kind: "codec-mal", Codec: "json", Sub: "trailing-comma", Args: []V{bs("[1,]")}},
+	}...)
+}
+
+// gridCalls: small exhaustive grids over the optional / mode-selecting arguments of the wrappers, where a
+// special value of one argument changes how another is read (base 0 = "detect the prefix", bit sizes,
+// the padding flag of base64, negative counts). Random sampling meets such pairs too rarely.
+func gridCalls(w func(entry string, args ...V) callSpec) []callSpec {
+	var out []callSpec
+	nums := []string{"0", "7", "017", "0x1f", "0X1F", "0b101", "0o17", "1_000", "0x_1f", "-0x10", "+5", "-017", "z", "Zz", "10", "ff", "127", "128", "-129", "9223372036854775807", "9223372036854775808", "", " 1", "1e3", "0x"}
+	for _, n := range nums {
+		out = append(out, w("strconv.parse_int", vStr(n)), w("strconv.atoi", vStr(n)))
+		for _, base := range []int64{0, 2, 8, 10, 16, 36} {
+			out = append(out, w("strconv.parse_int", vStr(n), vInt(base)))
+			for _, bits := range []int64{0, 8, 64} {
+				out = append(out, w("strconv.parse_int", vStr(n), vInt(base), vInt(bits)))
+			}
+		}
 	}
+	for _, t := range []string{"YQ==", "YQ", "YWI=", "YWI", "YWJj", "-_8=", "-_8", "+/8=", "+/8", "", "=", "YQ=", "Y Q=="} {
+		for _, pad := range []bool{true, false} {
+			out = append(out, w("base64.decode", vStr(t), vBool(pad)), w("base64.url_decode", vStr(t), vBool(pad)))
+		}
+		out = append(out, w("base64.decode", vStr(t)), w("base64.url_decode", vStr(t)))
+	}
+	for _, raw := range []string{"", "a", "ab", "abc", "\xfb\xff", "\xfb\xff\xfe"} {
+		for _, pad := range []bool{true, false} {
+			out = append(out, w("base64.encode", vBytes([]byte(raw)), vBool(pad)), w("base64.url_encode", vBytes([]byte(raw)), vBool(pad)))
+		}
+	}
+	for _, n := range []int64{-1, 0, 1, 2, 3} {
+		out = append(out, w("bytes.replace", vBytes([]byte("aaaa")), vBytes([]byte("a")), vBytes([]byte("b")), vInt(n)),
+			w("regexp.object.find_all", vStr("a"), vStr("aaaa"), vInt(n)), w("regexp.object.split", vStr("a"), vStr("bab ab"), vInt(n)), w("strings.repeat", vStr("ab"), vInt(n)))
+	}
+	return out
 }
 
 func newCodecCtx(o *out) (*codecCtx, error) {
